@@ -78,6 +78,7 @@ PV.declare('po', ('ov', z3.IntSort()))           # any other object (reference)
 PV.declare('pls', ('lsv', z3.SeqSort(z3.StringSort())))   # list of str
 PV = PV.create()
 
+anylist_id = z3.Function('anylist_id', z3.SeqSort(PV), z3.IntSort())
 j_isdict = z3.Function('j_isdict', JV, z3.BoolSort())     # dict vs list
 o_callable = z3.Function('o_callable', z3.IntSort(), z3.BoolSort())
 
@@ -193,6 +194,10 @@ def box(v):
         return PV.po(v.t)
     if k == 'list' and v.ty.args[0] == STR:
         return PV.pls(v.t)
+    if k == 'list' and v.ty.args[0] == ANY:
+        # a list with non-string elements: kept as an abstract object (its identity is a
+        # function of its content; negative ids are disjoint from heap references)
+        return PV.po(-1 - anylist_id(v.t))
     raise TypeError('cannot box %r' % (v,))
 
 
